@@ -56,6 +56,7 @@ var checks = map[string]*checkDef{
 		property: "C09", level: "exploration",
 		plan: []planItem{
 			{workload: "C09", variant: "plain", quick: 12000, thorough: 300000},
+			{workload: "C09C", variant: "instr", quick: 20000, thorough: 1000000},
 			{workload: "C09", variant: "noavx2", quick: 800, thorough: 15000},
 			{workload: "C09", variant: "purego", quick: 800, thorough: 15000},
 			{workload: "C09", variant: "force32bit", quick: 480, thorough: 8000},
